@@ -141,16 +141,80 @@ Proof.
 Qed.
 
 (* ---------------------------------------------------------------- C19_equiv: same C++ operations *)
-Lemma trace_ext l1 l2 b p k ops : (forall t f, l1 t f = l2 t f) -> trace_from l1 b p k ops = trace_from l2 b p k ops.
+(* an installer is faithful when the object it hands to the C++ repository runs exactly the functions of THIS call, whatever
+   adaptor nodes exist already *)
+Definition faithful (I : installer) : Prop :=
+  (forall l e s, snd (i_cmp I l e s) = {| n_equal := e; n_to_string := s |}) /\ (forall l c, snd (i_copy I l c) = c).
+Lemma c_installer_faithful : faithful c_installer.
+Proof. split; intros; reflexivity. Qed.
+Lemma x_installer_faithful : faithful x_installer.
+Proof. split; intros; reflexivity. Qed.
+
+(* with faithful installers the operation performed and the three pointers do not depend on the adaptor lists *)
+Lemma apply_sem_indep I1 I2 : faithful I1 -> faithful I2 -> forall p ad1 ad2 k f sg s args,
+  fst (fst (apply_sem I1 p ad1 k f sg s args)) = fst (fst (apply_sem I2 p ad2 k f sg s args))
+  /\ snd (apply_sem I1 p ad1 k f sg s args) = snd (apply_sem I2 p ad2 k f sg s args).
 Proof.
-  intros H. revert p k. induction ops as [|o r IH]; intros p k; simpl; [reflexivity|].
-  assert (step l1 b p k o = step l2 b p k o) as E by (destruct o; simpl; [reflexivity | now rewrite H]).
-  rewrite E. destruct (step l2 b p k o). now rewrite IH.
+  intros [C1 Y1] [C2 Y2] p ad1 ad2 k f sg s args. unfold apply_sem. destruct (bind f (snd sg) args 0%N) as [vs|]; [|split; reflexivity].
+  destruct s; try (split; reflexivity).
+  - pose proof (C1 (a_cmps ad1) (eval_arg vs (AParam 1)) (eval_arg vs (AParam 2))) as E1.
+    pose proof (C2 (a_cmps ad2) (eval_arg vs (AParam 1)) (eval_arg vs (AParam 2))) as E2.
+    destruct (i_cmp I1 _ _ _) as [l1 o1]. destruct (i_cmp I2 _ _ _) as [l2 o2]. simpl in *. subst. split; reflexivity.
+  - pose proof (Y1 (a_cps ad1) (eval_arg vs (AParam 1))) as E1. pose proof (Y2 (a_cps ad2) (eval_arg vs (AParam 1))) as E2.
+    destruct (i_copy I1 _ _) as [l1 o1]. destruct (i_copy I2 _ _) as [l2 o2]. simpl in *. subst. split; reflexivity.
+Qed.
+
+Lemma trace_ext l1 l2 b I1 I2 : (forall t f, l1 t f = l2 t f) -> faithful I1 -> faithful I2 ->
+  forall ops p ad1 ad2 k, trace_from l1 b I1 p ad1 k ops = trace_from l2 b I2 p ad2 k ops.
+Proof.
+  intros H F1 F2. induction ops as [|o r IH]; intros p ad1 ad2 k; simpl; [reflexivity|].
+  assert (fst (fst (step l1 b I1 p ad1 k o)) = fst (fst (step l2 b I2 p ad2 k o)) /\ snd (step l1 b I1 p ad1 k o) = snd (step l2 b I2 p ad2 k o)) as [E1 E2].
+  { destruct o as [sc|t f args]; simpl.
+    - destruct b; split; reflexivity.
+    - rewrite H. destruct (l2 t f) as [[sg s]|]; [|split; reflexivity]. apply (apply_sem_indep I1 I2 F1 F2). }
+  destruct (step l1 b I1 p ad1 k o) as [[p1 a1] x1]. destruct (step l2 b I2 p ad2 k o) as [[p2 a2] x2]. simpl in E1, E2. subst.
+  f_equal. apply IH.
 Qed.
 
 Lemma equiv_trace : forall ops, c_trace ops = x_trace ops.
 Proof.
-  intros ops. unfold c_trace, x_trace. rewrite select_checked. apply trace_ext. exact wired_is_denote.
+  intros ops. unfold c_trace, x_trace. rewrite select_checked.
+  apply trace_ext; [exact wired_is_denote | exact c_installer_faithful | exact x_installer_faithful].
+Qed.
+
+(* the comparator / copier a type name gets through the C interface runs the functions given in that very call: however many
+   adaptor nodes exist, whatever functions they hold (C19_adaptor_fresh) *)
+Lemma adaptor_fresh : forall p ad k args ty e s,
+  bind "installComparator" [TCharP; TEqFn; TStrFn] args 0%N = Some [ty; e; s] ->
+  snd (apply_sem c_installer p ad k "installComparator" (TVoid, [TCharP; TEqFn; TStrFn]) SInstallCmp args)
+  = XInstallCmp (p_sup p) (XPass ty) (XPass e) (XPass s).
+Proof. intros p ad k args ty e s H. unfold apply_sem. cbn [snd]. rewrite H. reflexivity. Qed.
+Lemma copier_fresh : forall p ad k args ty c,
+  bind "installCopier" [TCharP; TCopyFn] args 0%N = Some [ty; c] ->
+  snd (apply_sem c_installer p ad k "installCopier" (TVoid, [TCharP; TCopyFn]) SInstallCopy args) = XInstallCopy (p_sup p) (XPass ty) (XPass c).
+Proof. intros p ad k args ty c H. unfold apply_sem. cbn [snd]. rewrite H. reflexivity. Qed.
+
+(* an installComparator_c / installCopier_c that looks for an existing adaptor node with the same equality function (resp. the same
+   copier) and reuses it -- "the same functions are installed in every setup" -- is not faithful: two types that share one
+   equality function and have their own to-string functions get the first type's text *)
+Definition fn_index (x : xarg) : option Z := match x with XPass (CFn _ i) => Some i | _ => None end.
+Definition same_fn (a b : xarg) : bool := match fn_index a, fn_index b with Some i, Some j => (i =? j)%Z | _, _ => false end.
+Definition reuse_installer : installer :=
+  {| i_cmp := fun l e s => match find (fun n => same_fn (n_equal n) e) l with
+                           | Some n => (l, n)
+                           | None => i_cmp c_installer l e s
+                           end;
+     i_copy := fun l c => match find (fun n => same_fn n c) l with Some n => (l, n) | None => i_copy c_installer l c end |}.
+Definition equiv_reuse_stmt : Prop := forall ops, trace_from wired select_ok reuse_installer ptrs0 adaptors0 0 ops = x_trace ops.
+(* mock_c()->installComparator("P", eq0, str0); mock_c()->installComparator("S", eq0, str1) *)
+Definition reuse_witness : list op :=
+  [ OSelect None; OCall TblS "installComparator" [AB (Some [80%N]); AZ 0; AZ 0]; OCall TblS "installComparator" [AB (Some [83%N]); AZ 0; AZ 1] ].
+Lemma equiv_reuse_refuted : ~ equiv_reuse_stmt.
+Proof. intros H. specialize (H reuse_witness). vm_compute in H. discriminate H. Qed.
+Lemma reuse_not_faithful : ~ faithful reuse_installer.
+Proof.
+  intros [H _]. specialize (H [{| n_equal := XPass (CFn TEqFn 0); n_to_string := XPass (CFn TStrFn 0) |}] (XPass (CFn TEqFn 0)) (XPass (CFn TStrFn 1))).
+  vm_compute in H. discriminate H.
 Qed.
 
 (* ---------------------------------------------------------------- C19_value_roundtrip *)
@@ -267,7 +331,7 @@ Definition wired_old (t : tbl) (f : name) : option (csig * sem) :=
   | TblA => if f =? "hasReturnValue" then wired TblS f else wired TblA f
   | TblE => wired TblE f
   end.
-Definition equiv_old_stmt : Prop := forall ops, trace_from wired_old true ptrs0 0 ops = x_trace ops.
+Definition equiv_old_stmt : Prop := forall ops, trace_from wired_old true c_installer ptrs0 adaptors0 0 ops = x_trace ops.
 (* mock_c()->actualCall("f"); mock_scope_c("s")->...; call->hasReturnValue()  and  mock_c()->intReturnValue() after a call in a scope *)
 Definition old_witness : list op :=
   [ OSelect None; OCall TblS "actualCall" [AB (Some [102%N])]; OSelect (Some [115%N]); OCall TblS "actualCall" [AB (Some [103%N])];
@@ -299,6 +363,27 @@ Example ex_valid : valid ex_scenario = true /\ existsb (fun x => match x with XS
 Proof. vm_compute. repeat split. Qed.
 Example ex_invalid : valid [OCall TblE "withIntParameters" [AB (Some [112%N]); AZ 2147483648]] = false.
 Proof. vm_compute. reflexivity. Qed.
+(* several custom types with shared functions: P = (eq0, str0), S = (eq0, str1), copier 1 for both; the adaptor lists grow, the
+   objects installed carry the functions of their own call; a function index outside the pool is not a valid scenario *)
+Definition ex_custom : list op :=
+  [ OSelect None; OCall TblS "installComparator" [AB (Some [80%N]); AZ 0; AZ 0]; OCall TblS "installComparator" [AB (Some [83%N]); AZ 0; AZ 1];
+    OCall TblS "installCopier" [AB (Some [80%N]); AZ 1]; OCall TblS "installCopier" [AB (Some [83%N]); AZ 1];
+    OCall TblS "expectOneCall" [AB (Some [102%N])]; OCall TblE "withParameterOfType" [AB (Some [83%N]); AB (Some [112%N]); AB (Some [1%N; 2%N; 3%N; 4%N; 5%N; 6%N; 7%N; 8%N])];
+    OCall TblS "actualCall" [AB (Some [102%N])]; OCall TblA "withParameterOfType" [AB (Some [83%N]); AB (Some [112%N]); AB (Some [1%N; 2%N; 3%N; 5%N; 5%N; 6%N; 7%N; 8%N])] ].
+Example ex_custom_trace : valid ex_custom = true
+  /\ nth_error (c_trace ex_custom) 2 = Some (XInstallCmp (HSup None) (XPass (CBytes TCharP (Some [83%N]))) (XPass (CFn TEqFn 0)) (XPass (CFn TStrFn 1)))
+  /\ nth_error (c_trace ex_custom) 4 = Some (XInstallCopy (HSup None) (XPass (CBytes TCharP (Some [83%N]))) (XPass (CFn TCopyFn 1)))
+  /\ nth_error (trace_from wired select_ok reuse_installer ptrs0 adaptors0 0 ex_custom) 2
+     = Some (XInstallCmp (HSup None) (XPass (CBytes TCharP (Some [83%N]))) (XPass (CFn TEqFn 0)) (XPass (CFn TStrFn 0))).
+Proof. vm_compute. repeat split. Qed.
+Example ex_fresh_hyp : bind "installComparator" [TCharP; TEqFn; TStrFn] [AB (Some [83%N]); AZ 1; AZ 2] 0%N
+                       = Some [CBytes TCharP (Some [83%N]); CFn TEqFn 1; CFn TStrFn 2]
+                       /\ bind "installCopier" [TCharP; TCopyFn] [AB (Some [83%N]); AZ 1] 0%N = Some [CBytes TCharP (Some [83%N]); CFn TCopyFn 1].
+Proof. vm_compute. split; reflexivity. Qed.
+Example ex_invalid_fn : valid [OCall TblS "installComparator" [AB (Some [80%N]); AZ 2; AZ 0]] = false
+                        /\ valid [OCall TblS "installComparator" [AB (Some [80%N]); AZ 1; AZ 3]] = false
+                        /\ valid [OCall TblS "installCopier" [AB (Some [80%N])]] = false.
+Proof. vm_compute. repeat split. Qed.
 (* a machine that returns values: the observation of a typed machine is non-empty and identical on both sides *)
 Definition machine1 : machine :=
   {| mst := unit; minit := tt;
